@@ -131,6 +131,7 @@ pub fn serve_and_consume(wire: Vec<u8>, method: &str, url: &str, seg1: bool, how
     let pulled = world.lock().unwrap().conns.iter().map(|c| c.pulled).sum();
     let (res, kind) = match r {
         Ok(Ok(())) => ("ok".to_string(), String::new()),
+        Ok(Err(k)) if k.starts_with("PANIC:") => ("panic".to_string(), k),
         Ok(Err(k)) => ("err".to_string(), k),
         Err(p) => ("panic".to_string(), panic_msg(&p)),
     };
@@ -203,9 +204,15 @@ pub fn run(sc: &Value) -> Vec<String> {
                 }
                 "header-line" => wire.extend_from_slice(b"HTTP/1.1 200 OK\r\nX-Long: "),
                 "header-line-folded" => wire.extend_from_slice(b"HTTP/1.1 200 OK\r\nX-Long: "),
-                "valid-headers" | "invalid-name-headers" | "dup-headers" => {
+                "valid-headers" | "invalid-name-headers" | "dup-headers" | "invalid-value-headers" | "del-value-headers" | "empty-name-headers"
+                | "empty-value-headers" | "mixed-bad-headers" => {
                     wire.extend_from_slice(b"HTTP/1.1 200 OK\r\n");
                     max_headers = Some(guo(sc, "maxHeaders").unwrap_or(100));
+                }
+                "connect-valid-headers" | "connect-invalid-value-headers" | "connect-invalid-name-headers" => {
+                    wire.extend_from_slice(b"HTTP/1.1 200 Connection established\r\n");
+                    url = "https://origin.test/".into();
+                    proxy = Some("http://proxy.test:3128");
                 }
                 "chunk-size-line" | "chunk-ext" | "chunk-size-zeros" => {
                     wire.extend_from_slice(b"HTTP/1.1 200 OK\r\nTransfer-Encoding: chunked\r\n\r\n");
@@ -235,7 +242,18 @@ pub fn run(sc: &Value) -> Vec<String> {
                     "header-line-folded" => wire.extend_from_slice(b"aaaaaaa\n"),
                     "valid-headers" => wire.extend_from_slice(format!("x-{}: v\r\n", i).as_bytes()),
                     "dup-headers" => wire.extend_from_slice(b"x-same: v\r\n"),
-                    "invalid-name-headers" => wire.extend_from_slice(format!("bad name {}: v\r\n", i).as_bytes()),
+                    "invalid-name-headers" | "connect-invalid-name-headers" => wire.extend_from_slice(format!("bad name {}: v\r\n", i).as_bytes()),
+                    "connect-valid-headers" => wire.extend_from_slice(format!("x-{}: v\r\n", i).as_bytes()),
+                    "invalid-value-headers" | "connect-invalid-value-headers" => wire.extend_from_slice(format!("x-{}: a\x01b\r\n", i).as_bytes()),
+                    "del-value-headers" => wire.extend_from_slice(b"set-cookie: id=\x7f\r\n"),
+                    "empty-name-headers" => wire.extend_from_slice(b": v\r\n"),
+                    "empty-value-headers" => wire.extend_from_slice(format!("x-{}:\r\n", i % 3).as_bytes()),
+                    "mixed-bad-headers" => match i % 4 {
+                        0 => wire.extend_from_slice(b"bad name: v\r\n"),
+                        1 => wire.extend_from_slice(b"x: \x00\r\n"),
+                        2 => wire.extend_from_slice(b" : \r\n"),
+                        _ => wire.extend_from_slice(b"x-\xe9: v\r\n"),
+                    },
                     "chunk-size-line" => wire.push(b'1'),
                     "chunk-size-zeros" => wire.push(b'0'),
                     "chunk-ext" => {
@@ -253,6 +271,26 @@ pub fn run(sc: &Value) -> Vec<String> {
             let wl = wire.len();
             let o = serve_and_consume(wire, "GET", &url, gb(sc, "seg1"), gso(sc, "how").unwrap_or("reads:100"), max_headers, proxy);
             out.push(event(&id, what, &o, wl, base_len, json!({"maxHeaders":max_headers.unwrap_or(100)})));
+        }
+        // a refused CONNECT whose body is text of every shape: the error is returned and can be formatted
+        "refusal-text" => {
+            let unit = unhex(gs(sc, "unit_hex"));
+            let lead = gu(sc, "lead");
+            let total = gu(sc, "total");
+            let mut body: Vec<u8> = vec![b'a'; lead];
+            while body.len() + unit.len() <= total {
+                body.extend_from_slice(&unit);
+            }
+            let mut wire = format!("HTTP/1.1 {} Refused\r\n", gu(sc, "code")).into_bytes();
+            if gb(sc, "declared") {
+                wire.extend_from_slice(format!("Content-Length: {}\r\n", body.len()).as_bytes());
+            }
+            wire.extend_from_slice(b"Content-Type: text/plain; charset=utf-8\r\n\r\n");
+            let base_len = wire.len();
+            wire.extend_from_slice(&body);
+            let wl = wire.len();
+            let o = serve_and_consume(wire, "GET", "https://origin.test/", gb(sc, "seg1"), "bytes", None, Some("http://proxy.test:3128"));
+            out.push(event(&id, "refusal-text", &o, wl, base_len, json!({})));
         }
         // a size that is merely declared must not pay for memory
         "declared" => {
@@ -337,11 +375,28 @@ pub fn generate(seed: u64, tier: &str) -> Vec<Value> {
         }
     }
     for what in ["status-line", "header-line", "header-line-folded", "valid-headers", "dup-headers", "invalid-name-headers", "chunk-size-line", "chunk-size-zeros",
-        "chunk-ext", "connect-refusal-body", "connect-refusal-body-declared", "connect-header-line"] {
+        "chunk-ext", "connect-refusal-body", "connect-refusal-body-declared", "connect-header-line", "invalid-value-headers", "del-value-headers",
+        "empty-name-headers", "empty-value-headers", "mixed-bad-headers", "connect-valid-headers", "connect-invalid-value-headers",
+        "connect-invalid-name-headers"] {
         for (i, how) in ["reads:100", "bytes"].iter().enumerate() {
             out.push(json!({"id":format!("e-{}-{}", what, i),"kind":"endless","what":what,"how":how,"total": if thorough { 16 << 20 } else { 2 << 20 }}));
         }
         out.push(json!({"id":format!("e-{}-mh5", what),"kind":"endless","what":what,"how":"bytes","maxHeaders":5,"total": 1 << 20}));
+    }
+    // refusal bodies that are text: ASCII, two-, three- and four-octet characters at every alignment, lengths
+    // around the places where an implementation might cut (100, 200, 256, 1 KiB, the 10 KiB cap)
+    let mut k = 0;
+    for unit in ["61", "c3a9", "e282ac", "f09f9880", "0d0a", "20", "c3", "ff"] {
+        for total in [0usize, 1, 99, 100, 101, 199, 200, 201, 202, 255, 256, 257, 1023, 1025, 4096, 10239, 10240, 10241, 10243, 20000] {
+            for lead in 0..4usize {
+                if !thorough && (k + lead) % 3 != 0 && !(total == 201 || total == 10241) {
+                    continue;
+                }
+                out.push(json!({"id":format!("rt-{}-{}-{}", unit, total, lead),"kind":"refusal-text","unit_hex":unit,"lead":lead,"total":total,
+                    "code":([403, 407, 502, 301][k % 4]),"declared": k % 2 == 0, "seg1": k % 5 == 0 && total < 2000}));
+            }
+            k += 1;
+        }
     }
     for what in ["content-length", "chunk-size"] {
         let vals: &[&str] = if what == "content-length" {
